@@ -40,7 +40,7 @@ PROPS = {
     },
     'C14': {
         'lean_targets': ['Cqos.Props.C14'],
-        'theorems': ['Cqos.C14.c14_fair_total', 'Cqos.C14.c14_fair_frame', 'Cqos.C14.c14_fair_shape',
+        'theorems': ['Cqos.C14.c14_fair_total', 'Cqos.C14.c14_fair_frame', 'Cqos.C14.c14_fair_shape', 'Cqos.C14.c14_fair_mono',
                      'Cqos.C14.c14_rate_total', 'Cqos.C14.c14_rate_frame', 'Cqos.C14.c14_rate_incs',
                      'Cqos.C14.c14_rate_mono', 'Cqos.C14.c14_rate_near', 'Cqos.C14.near_of_nearHalf',
                      'Cqos.C14.rateIncs_none_near', 'Cqos.C14.c14_v1_eq_v2'],
